@@ -839,7 +839,7 @@ func RunHistAlias(r *Run) {
 			}
 			x := live[c.Intn("reparseobj", len(live))]
 			ncfg := drawCfg(c, true)
-			ncfg.Copy = true
+			ncfg.Copy = c.Intn("reparsecopy", 2) == 0
 			ndoc := genHistDoc(r, ncfg.ND, c.Intn("reparsebig", 6) == 5)
 			no := parseNewReuse(r, ndoc, ncfg, what+" parse reusing "+x.origin, x.pj)
 			if r.failed() {
